@@ -156,14 +156,49 @@ fn find_nested<'a>(block: &'a syn::Block, segs: &[&str]) -> Option<Found<'a>> {
 
 /// closures of a block in source (pre-)order, *not* descending into the argument lists that rule
 /// R12 drops (`with_context`, `context`, `anyhow!`), and descending into `select!` arms.
-fn collect_closures<'a>(block: &'a syn::Block) -> Vec<&'a syn::ExprClosure> {
+/// a closure, or a free-standing `async { .. }` block (e.g. the argument of `task::block_on`)
+#[derive(Clone, Copy)]
+enum Clo<'a> {
+    Closure(&'a syn::ExprClosure),
+    Async(&'a syn::ExprAsync),
+}
+impl<'a> Clo<'a> {
+    fn span(&self) -> Span {
+        match self {
+            Clo::Closure(c) => c.span(),
+            Clo::Async(a) => a.span(),
+        }
+    }
+}
+
+fn clo_body<'a>(c: Clo<'a>) -> Body<'a> {
+    match c {
+        Clo::Async(a) => Body::Block(&a.block),
+        Clo::Closure(c) => match &*c.body {
+            syn::Expr::Async(a) => Body::Block(&a.block),
+            syn::Expr::Block(b) => Body::Block(&b.block),
+            e => Body::Expr(e),
+        },
+    }
+}
+
+fn collect_closures<'a>(block: &'a syn::Block) -> Vec<Clo<'a>> {
     struct V<'a> {
-        out: Vec<&'a syn::ExprClosure>,
+        out: Vec<Clo<'a>>,
     }
     impl<'a> Visit<'a> for V<'a> {
         fn visit_expr_closure(&mut self, c: &'a syn::ExprClosure) {
-            self.out.push(c);
-            syn::visit::visit_expr_closure(self, c);
+            self.out.push(Clo::Closure(c));
+            // an `async move { }` directly as the closure body belongs to the closure
+            if let syn::Expr::Async(a) = &*c.body {
+                self.visit_block(&a.block);
+            } else {
+                syn::visit::visit_expr_closure(self, c);
+            }
+        }
+        fn visit_expr_async(&mut self, a: &'a syn::ExprAsync) {
+            self.out.push(Clo::Async(a));
+            syn::visit::visit_expr_async(self, a);
         }
         fn visit_expr_method_call(&mut self, m: &'a syn::ExprMethodCall) {
             let name = m.method.to_string();
@@ -583,7 +618,12 @@ impl<'s> Visit<'s> for Rw<'s> {
                 self.handle_macro(&m.mac, e.span(), false);
             }
             syn::Expr::Index(ix) => {
-                if let syn::Expr::Reference(_) = &*ix.index {
+                let by_ref = match &*ix.index {
+                    syn::Expr::Reference(_) => true,
+                    syn::Expr::Path(p) => p.path.get_ident().map(|i| self.f.ref_params.contains(&i.to_string())).unwrap_or(false),
+                    _ => false,
+                };
+                if by_ref {
                     let (a, b) = br(ix.bracket_token.span.open());
                     let (c, d) = br(ix.bracket_token.span.close());
                     let (xa, _) = br(ix.expr.span());
@@ -605,6 +645,18 @@ impl<'s> Visit<'s> for Rw<'s> {
                 self.fail(format!("async block at {} outside a closure site", self.loc(a.span())));
             }
             syn::Expr::ForLoop(fl) => {
+                // R17: `for &x in e { .. }` -> `for x__ref in e { let x = *x__ref; .. }` (Verus has no ref patterns)
+                if let syn::Pat::Reference(pr) = &*fl.pat {
+                    if let syn::Pat::Ident(pi) = &*pr.pat {
+                        let (pa, pb) = br(fl.pat.span());
+                        let name = pi.ident.to_string();
+                        self.edit(pa, pb, &format!("{}__ref", name), "R17", &format!("ref pattern `&{}` in for loop desugared at {}", name, self.loc(e.span())));
+                        let (_, bb) = br(fl.body.brace_token.span.open());
+                        self.edit(bb, bb, &format!(" let {} = *{}__ref;", name, name), "R17", "ref pattern binding");
+                    } else {
+                        self.fail(format!("unsupported ref pattern in for loop at {}", self.loc(e.span())));
+                    }
+                }
                 let ls = self.inject_loop(&fl.body, e.span());
                 let (ea, eb) = br(fl.expr.span());
                 if let Some(ls) = ls {
@@ -650,11 +702,8 @@ impl<'s> Visit<'s> for Rw<'s> {
                     let (ra, _) = br(m.receiver.span());
                     let (da, _) = br(m.dot_token.span());
                     let (_, pb) = br(m.paren_token.span.close());
-                    let f = if name == "context" && self.f.error_context_receivers.iter().any(|p| squash(p) == squash(self.text(m.receiver.span()))) {
-                        "ctx_e("
-                    } else {
-                        "ctx("
-                    };
+                    // every `.context(..)` in zinoma is on an anyhow::Error, every `.with_context(..)` on a Result/Option
+                    let f = if name == "context" { "ctx_e(" } else { "ctx(" };
                     self.edit(ra, ra, f, "R12", &format!(".{}(..) text dropped at {}", name, self.loc(e.span())));
                     self.edit(da, pb, ")", "R12", "context close");
                     self.visit_expr(&m.receiver);
@@ -934,17 +983,7 @@ fn locate_body<'a>(src: &'a SrcFile, f: &FnSpec) -> R<(Option<&'a syn::Signature
             let Some(c) = cl.get(k) else {
                 refuse!("anchor lost: closure #{} of `{}` not found in {} ({} closures)", k, fpath, src.rel, cl.len());
             };
-            let body: &syn::Expr = match &*c.body {
-                syn::Expr::Async(a) => {
-                    // async move { BODY }
-                    return Ok((None, c.span(), Body::Block(&a.block)));
-                }
-                other => other,
-            };
-            match body {
-                syn::Expr::Block(b) => Ok((None, c.span(), Body::Block(&b.block))),
-                e => Ok((None, c.span(), Body::Expr(e))),
-            }
+            Ok((None, c.span(), clo_body(*c)))
         }
     }
 }
@@ -979,6 +1018,13 @@ fn emit_fn(unit: &Unit, src: &SrcFile, f: &FnSpec, threaded: &BTreeSet<String>) 
         let mut p = P(BTreeSet::new());
         p.visit_block(block);
         fspec.pin_idents = p.0;
+    }
+    for inp in &sig.inputs {
+        if let syn::FnArg::Typed(t) = inp {
+            if let (syn::Pat::Ident(pi), syn::Type::Reference(_)) = (&*t.pat, &*t.ty) {
+                fspec.ref_params.insert(pi.ident.to_string());
+            }
+        }
     }
     let fspec: &FnSpec = Box::leak(Box::new(fspec));
 
@@ -1092,38 +1138,27 @@ fn emit_fn(unit: &Unit, src: &SrcFile, f: &FnSpec, threaded: &BTreeSet<String>) 
             let Some(c) = closures.get(k) else {
                 refuse!("anchor lost: closure #{} of `{}` not found ({} closures)", k, fpath, closures.len());
             };
-            let c: &syn::ExprClosure = c;
-            let body: &syn::Expr = match &*c.body {
-                syn::Expr::Async(a) => {
-                    let (x, y) = br(a.block.span());
+            let c: Clo = *c;
+            let is_block;
+            match clo_body(c) {
+                Body::Block(b) => {
+                    let (x, y) = br(b.span());
                     lo = x;
                     hi = y;
-                    let (_, bb) = br(a.block.brace_token.span.open());
+                    let (_, bb) = br(b.brace_token.span.open());
                     let pre = if f.pre.trim().is_empty() { String::new() } else { format!("\n{}\n", f.pre.trim_end()) };
                     rw.edit(bb, bb, &pre, "INJ", "body prologue");
-                    // closures nested in this closure are numbered relative to the host; not supported
-                    rw.visit_block(&a.block);
-                    &c.body
+                    rw.visit_block(b);
+                    is_block = true;
                 }
-                syn::Expr::Block(b) => {
-                    let (x, y) = br(b.block.span());
-                    lo = x;
-                    hi = y;
-                    let (_, bb) = br(b.block.brace_token.span.open());
-                    let pre = if f.pre.trim().is_empty() { String::new() } else { format!("\n{}\n", f.pre.trim_end()) };
-                    rw.edit(bb, bb, &pre, "INJ", "body prologue");
-                    rw.visit_block(&b.block);
-                    &c.body
-                }
-                e => {
+                Body::Expr(e) => {
                     let (x, y) = br(e.span());
                     lo = x;
                     hi = y;
                     rw.visit_expr(e);
-                    e
+                    is_block = false;
                 }
-            };
-            let is_block = matches!(body, syn::Expr::Async(_) | syn::Expr::Block(_));
+            }
             let mut params = f.params.clone().unwrap_or_default();
             if is_threaded {
                 if let Some(gp) = &ghost_param {
@@ -1340,6 +1375,12 @@ fn emit_item(unit: &Unit, src: &SrcFile, it: &ItemSpec) -> R<Emitted> {
             rw.visit_expr(&c.expr);
         }
         syn::Item::Static(c) => {
+            // R18: an immutable `static` of a scalar type is read like a `const` (Verus wants `exec static` syntax)
+            if !matches!(c.mutability, syn::StaticMutability::None) {
+                refuse!("static mut {} is not supported", it.name);
+            }
+            let (x, y) = br(c.static_token.span());
+            rw.edit(x, y, "const", "R18", &format!("static {} read as const", it.name));
             rw.visit_type(&c.ty);
             rw.visit_expr(&c.expr);
         }
